@@ -104,7 +104,26 @@ def _safe_describe(mm):
         return "describe() raised %r" % (e,)
 
 
-SUBCHECKS = {"expr": x_expr}
+def x_sequence(ctx, case):
+    """One matcher instance matched against a sequence of values: every verdict is the documented
+    predicate of THAT value (no state carried from earlier matches, also across instances)."""
+    E = env()
+    expr, raws = case["expr"], case["values"]
+    m = G.build(expr, E)
+    got, want = [], []
+    for raw in raws:
+        try:
+            w = G.sem(expr, G.mkvalue(raw, E), E, raw)
+        except G.Propagates as p:
+            w = ("raised", p.exc_type.__name__)
+        want.append(w)
+        got.append(verdict(m, G.mkvalue(raw, E))[0])
+    ctx.check(got == want, "verdict==documented-predicate",
+              lambda: {"expr": expr, "values": raws, "got": got, "want": want})
+    return True
+
+
+SUBCHECKS = {"expr": x_expr, "sequence": x_sequence}
 
 DOMS = ["int", "str", "bytes", "list", "lstr", "dict", "obj", "exc", "call", "warncall", "path"]
 
@@ -219,4 +238,7 @@ def run(ctx):
         if not vals:
             ctx.count("excluded:no-value-in-domain")
             continue
-        ctx.execute("expr", {"expr": e, "value": rng.choice(vals)})
+        if rng.random() < 0.15 and dom not in ("call", "warncall"):
+            ctx.execute("sequence", {"expr": e, "values": [rng.choice(vals) for _ in range(rng.randint(2, 5))]})
+        else:
+            ctx.execute("expr", {"expr": e, "value": rng.choice(vals)})
